@@ -105,15 +105,27 @@ package riscv32
 //@   ite(k == riscv.ASB, st8(m, ea(a, imm), uint64(b)),
 //@   ite(k == riscv.ASH, st16(m, ea(a, imm), uint64(b)),
 //@   ite(k == riscv.ASW, st32(m, ea(a, imm), uint64(b)), m)))
-//@ spec imm_ok(k abi.As, imm int32) bool :=
+//@ spec imm_ok(k abi.As, imm int32) bool := isa_fmt(k) == 1 ||
 //@   ite(k == riscv.ALUI || k == riscv.AAUIPC, 0 <= imm && imm < (1 << 20),
-//@   ite(k == riscv.ASLLI || k == riscv.ASRLI || k == riscv.ASRAI, 0 <= imm && imm < 32,
+//@   ite(k == riscv.ASLLI || k == riscv.ASRLI || k == riscv.ASRAI, 0 <= imm && imm < 64,
 //@   ite(k == riscv.AJAL, -(1 << 20) <= imm && imm < (1 << 20) && imm & 1 == 0,
 //@   ite(k == riscv.ABEQ || k == riscv.ABNE || k == riscv.ABLT || k == riscv.ABGE || k == riscv.ABLTU || k == riscv.ABGEU, -(1 << 12) <= imm && imm < (1 << 12) && imm & 1 == 0,
 //@   -(1 << 11) <= imm && imm < (1 << 11)))))
 //@ spec xr(p *CPU, i uint32) uint32 := ite(i == 0, 0, old(p.RegX[i]))
 
+// ghost record of the instruction execInst was asked to execute (set when its contract is applied at a call)
+//@ ghost x_as int16
+//@ ghost x_rd uint32
+//@ ghost x_rs1 uint32
+//@ ghost x_rs2 uint32
+//@ ghost x_imm int32
+
 //@ func (*CPU).execInst
+//@   sets x_as = int16(as)
+//@   sets x_rd = arg.Rd
+//@   sets x_rs1 = arg.Rs1
+//@   sets x_rs2 = arg.Rs2
+//@   sets x_imm = arg.Imm
 //@   foreach k in {riscv.ALUI, riscv.AAUIPC, riscv.AJAL, riscv.AJALR, riscv.ABEQ, riscv.ABNE, riscv.ABLT, riscv.ABGE, riscv.ABLTU, riscv.ABGEU, riscv.ALB, riscv.ALH, riscv.ALW, riscv.ALBU, riscv.ALHU, riscv.ASB, riscv.ASH, riscv.ASW, riscv.AADDI, riscv.ASLTI, riscv.ASLTIU, riscv.AXORI, riscv.AORI, riscv.AANDI, riscv.ASLLI, riscv.ASRLI, riscv.ASRAI, riscv.AADD, riscv.ASUB, riscv.ASLL, riscv.ASLT, riscv.ASLTU, riscv.AXOR, riscv.ASRL, riscv.ASRA, riscv.AOR, riscv.AAND, riscv.AFENCE, riscv.AMUL, riscv.ADIV, riscv.ADIVU, riscv.AREM, riscv.AREMU}
 //@   requires[bind] as == k
 //@   requires p != nil && arg != nil && bus != nil
@@ -122,6 +134,19 @@ package riscv32
 //@   ensures[regs] result == nil ==> (forall i in 1..32 :: (i != arg.Rd || !writes_rd(k)) ==> p.RegX[i] == old(p.RegX[i]))
 //@   ensures[pc]   result == nil ==> p.PC == rv_pc(k, xr(p, arg.Rs1), xr(p, arg.Rs2), arg.Imm, old(p.PC))
 //@   ensures[mem]  result == nil ==> mem == rv_mem(k, xr(p, arg.Rs1), xr(p, arg.Rs2), arg.Imm, old(mem))
-//@   modifies p.RegX, p.RegF[0], p.PC, mem
+//@   modifies p.RegX, p.RegF[0], p.PC, mem, x_as, x_rd, x_rs1, x_rs2, x_imm
 //@   safe
+//@   property C20
+
+// ---- one step of the machine: fetch, decode (riscv.DecodeEx through its contract), execute (execInst through its contract).
+// StepRun is proved to hand execInst exactly the instruction found at the pc: the mnemonic the ISA assigns to the
+// fetched word, its register fields and its immediate, within the operand ranges execInst requires. The state
+// change of the step is then execInst's (its contract above); StepRun itself writes nothing else (frame).
+//@ spec w_of(m (Array (_ BitVec 64) (_ BitVec 8)), pc uint64) uint32 := uint32(ld32(m, pc))
+//@ func (*CPU).StepRun
+//@   requires p != nil && bus != nil
+//@   ensures[step] foreach k in {riscv.ALUI, riscv.AAUIPC, riscv.AJAL, riscv.AJALR, riscv.ABEQ, riscv.ABNE, riscv.ABLT, riscv.ABGE, riscv.ABLTU, riscv.ABGEU, riscv.ALB, riscv.ALH, riscv.ALW, riscv.ALBU, riscv.ALHU, riscv.ASB, riscv.ASH, riscv.ASW, riscv.AADDI, riscv.ASLTI, riscv.ASLTIU, riscv.AXORI, riscv.AORI, riscv.AANDI, riscv.ASLLI, riscv.ASRLI, riscv.ASRAI, riscv.AADD, riscv.ASUB, riscv.ASLL, riscv.ASLT, riscv.ASLTU, riscv.AXOR, riscv.ASRL, riscv.ASRA, riscv.AOR, riscv.AAND, riscv.AFENCE, riscv.AMUL, riscv.ADIV, riscv.ADIVU, riscv.AREM, riscv.AREMU} :: result == nil && isa_match(k, w_of(old(mem), uint64(old(p.PC)))) ==>
+//@        x_as == int16(k) && (uses_rd(k) ==> x_rd == d_rd(w_of(old(mem), uint64(old(p.PC))))) && (uses_rs1(k) ==> x_rs1 == d_rs1(w_of(old(mem), uint64(old(p.PC))))) &&
+//@        (uses_rs2(k) ==> x_rs2 == d_rs2(w_of(old(mem), uint64(old(p.PC))))) && (uses_imm(k) ==> x_imm == imm_of(k, w_of(old(mem), uint64(old(p.PC)))))
+//@   modifies p.RegX, p.RegF[0], p.PC, mem, x_as, x_rd, x_rs1, x_rs2, x_imm
 //@   property C20
